@@ -275,7 +275,7 @@ func runLocal(c *Ctx, sh *shared, dir string) {
 	n := NewNode(c.Bin, "c05local", dir, workCommandYAML(dir))
 	statusLog := filepath.Join(dir, "status.log")
 	n.Env = []string{"VERIF_STATUS_LOG=" + statusLog}
-	if err := n.Start(); err != nil {
+	if err := startNode(n); err != nil {
 		sh.violate("receptor does not start: "+err.Error(), "harness-start", nil)
 		return
 	}
